@@ -634,9 +634,13 @@ def c06_e2e(R):
         lk = LinearIR.Linker()
         lk.AddModule(r.IRModule)
         prog = lk.Link()
-        st = wasmtime.Store()
-        inst = wasmtime.Instance(st, wasmtime.Module(st.engine, data), [])
-        fn = inst.exports(st)["f"]
+        try:
+            st = wasmtime.Store()
+            inst = wasmtime.Instance(st, wasmtime.Module(st.engine, data), [])
+            fn = inst.exports(st)["f"]
+        except Exception as e:
+            bad.append((src, f"the valid module cannot be instantiated / has no export `f`: {type(e).__name__}: {str(e)[:120]}"))
+            continue
         for a, b in inputs:
             try:
                 want = VM.VirtualMachine(prog).Invoke("f", a=a, b=b)
